@@ -48,12 +48,17 @@ def main(n, seed):
             e = tuple(rnd.choice("abc") for _ in range(rnd.randint(1, 2)))
             if not any(t[: len(e)] == e or e[: len(t)] == t for t in target):
                 empty_dirs.append(e)
+        # targets given as explicit FILE entries only (no directory entries at all)
+        files_only = (not mode_lazy) and not empty_dirs and rnd.random() < 0.35
+        # one file's object lives in a store of its own, registered at exactly that file's key (single-file-output layout)
+        own_store_key = rnd.choice(sorted(target)) if (target and not mode_lazy and rnd.random() < 0.3) else None
         delete = rnd.random() < 0.75
         if not delete and any((t[: len(k)] == k or k[: len(t)] == t) and t != k for t in list(target) + empty_dirs for k in prior):
             delete = True  # a path changing kind cannot converge without deletions: outside the statement's delete-off clause
-        distinct.add((tuple(sorted(prior)), tuple(sorted(target)), delete, mode_lazy, with_md5, tuple(empty_dirs)))
+        distinct.add((tuple(sorted(prior)), tuple(sorted(target)), delete, mode_lazy, with_md5, tuple(empty_dirs), files_only, own_store_key))
         with tempfile.TemporaryDirectory(dir="/var/tmp") as tmp:
             odb = HashFileDB(fs, os.path.join(tmp, "odb"))
+            odb2 = HashFileDB(fs, os.path.join(tmp, "odb2"))
             ws = os.path.join(tmp, "ws"); os.makedirs(ws)
             for k, data in prior.items():
                 p = os.path.join(ws, *k); os.makedirs(os.path.dirname(p), exist_ok=True); open(p, "wb").write(data)
@@ -74,14 +79,17 @@ def main(n, seed):
                         oid = hashlib.md5(raw).hexdigest() + ".dir"; odb.add_bytes(oid, raw)
                         idx[(top,)] = DataIndexEntry(key=(top,), meta=Meta(isdir=True), hash_info=HashInfo("md5", oid))
                 dirs = {k[:j] for k in target if k not in done for j in range(1, len(k))} | {e[:j] for e in empty_dirs for j in range(1, len(e) + 1)}
-                for dk in dirs:
+                for dk in ([] if files_only else dirs):
                     idx[dk] = DataIndexEntry(key=dk, meta=Meta(isdir=True), loaded=True)
                 for k, data in target.items():
                     if k in done:
                         continue
-                    h = hashlib.md5(data).hexdigest(); odb.add_bytes(h, data)
+                    data_ = data + b" (own store)" if k == own_store_key else data
+                    h = hashlib.md5(data_).hexdigest(); (odb2 if k == own_store_key else odb).add_bytes(h, data_)
                     idx[k] = DataIndexEntry(key=k, meta=Meta(), hash_info=HashInfo("md5", h))
                 idx.storage_map.add_cache(ObjectStorage((), odb))
+                if own_store_key is not None:
+                    idx.storage_map.add_cache(ObjectStorage(own_store_key, odb2))
                 return idx
             errors, problem = [], None
             try:
@@ -89,7 +97,7 @@ def main(n, seed):
                 d1 = compare(md5(old) if with_md5 else old, tgt(), delete=delete)
                 apply(d1, ws, fs, onerror=lambda *a: errors.append(a), links=["copy"])
                 got = walk(ws)
-                want = {k: v for k, v in target.items()}
+                want = {k: (v + b" (own store)" if k == own_store_key else v) for k, v in target.items()}
                 want.update({k[:j]: "<dir>" for k in target for j in range(1, len(k))})
                 want.update({e[:j]: "<dir>" for e in empty_dirs for j in range(1, len(e) + 1)})
                 if errors:
@@ -111,9 +119,9 @@ def main(n, seed):
                 problem = "raised " + repr(e)
             if problem:
                 fails.append({"prior": {"/".join(k): v.decode() for k, v in prior.items()}, "target": {"/".join(k): v.decode() for k, v in target.items()},
-                              "delete": delete, "problem": problem})
+                              "delete": delete, "files_only": files_only, "own_store": "/".join(own_store_key) if own_store_key else None, "problem": problem})
     return {"evaluations": n, "distinct_nontrivial": len(distinct), "failures": fails[:3], "n_failures": len(fails),
-            "bound": "names over {a,b,c}, depth <= 3, <= 5 files on each side, explicit entries, copy links"}
+            "bound": "names over {a,b,c}, depth <= 3, <= 5 files on each side, explicit entries (with or without directory entries) or lazy directory objects, optional per-file storage, copy links"}
 
 
 if __name__ == "__main__":
